@@ -8,7 +8,7 @@ claim("C01", PBT + ": independent special-token scanner + UTF-8 bytes, round tri
 claim("C02", PBT + ": decode(encode) round trip + table-derived byte strings",
   "Generated well-formed merge tables x texts with whitespace structure x max_vocab_size x special configs; losslessness modulo trailing whitespace, id range and UTF-8 validity are checked against the table itself.",
   "Tables <= 48 merges over small alphabets; max_vocab_size semantics as documented in the constructor.")
-claim("C03", PBT + ": differential against a naive reference BPE",
+claim("C03", PBT + " + coverage-guided fuzzing (libFuzzer target with the same oracle, thorough tier): differential against a naive reference BPE",
   "Generated tables with chains/competing merges x words over the table alphabet; token ids must equal a quadratic rescanning reference (lowest id, leftmost).",
   "Reference BPE and the `\\s+\\S+|^\\S+` scanner are written from the statement; tables <= 32 merges, tokens <= 12 bytes.")
 claim("C04", PBT + ": cross-consistency of the vocabulary maps + independent id layout",
@@ -17,7 +17,7 @@ claim("C04", PBT + ": cross-consistency of the vocabulary maps + independent id 
 claim("C07", PBT + ": exact sequence models (sequential, round-robin), multiset/order/determinism (weighted), step-bounded termination + watchdog",
   "Generated source-length vectors x strategy x seed; drained with a step bound, compared with exact models; a call that never returns is detected by the shard watchdog, confirmed in a fresh process and reported as a violation (the property claims termination).",
   "In-memory sources with exact declared lengths; 20 s without progress inside a microsecond computation counts as non-termination after confirmation.")
-claim("C12", PBT + ": differential against a reference DP + script applier + metamorphic laws",
+claim("C12", PBT + " + coverage-guided fuzzing (libFuzzer target with the same oracle, thorough tier): differential against a reference DP + script applier + metamorphic laws",
   "Generated pairs over dense alphabets x all flag combinations; distance, normalised distance, prefix distance, distances() and the operations() script are compared with an independent suffix-recursive reference (validated by BFS at start-up).",
   "Trusts unicode-segmentation for cluster boundaries; strings <= 40 characters. KF5 (normalised distance > 1 under spaces_insert_delete_only) is a recorded known finding; its class is excluded from the upper range assertion only.")
 claim("C13", PBT + ": range/totality, calibration laws via reference LCS, reference whitespace-operation sets, aggregation laws, defining formulas",
@@ -32,25 +32,25 @@ claim("C19", PBT + ": replay with full recount (validity predicate, ties explore
 claim("C20", PBT + ": sequential recount, top-k validity predicate, cross-thread equality, save/load round trip, closest-entry predicate",
   "Generated corpora x max_size x max_sequences x threads x modes x queries.",
   "General profile uses the crate's split_words() for the line->token map; the plain profile is fully independent.")
-claim("C06", PBT + ": partition / limit / termination / determinism / greedy-maximality predicates",
+claim("C06", PBT + " + coverage-guided fuzzing (libFuzzer target with the same oracle, thorough tier): partition / limit / termination / determinism / greedy-maximality predicates",
   "Generated item-size vectors x all batching configurations; batches must partition the ids, respect the limit, end within n+2 calls, be a function of the seed, and (without sort/shuffle) be in order and greedy-maximal.",
   "batch_limit 0 / prefetch 0 are clamped to 1 by the constructor; a non-returning next() is caught by the watchdog.")
-claim("C10", PBT + ": inverse law + code-point-level metamorphic relation",
+claim("C10", PBT + " + coverage-guided fuzzing (libFuzzer target with the same oracle, thorough tier): inverse law + code-point-level metamorphic relation",
   "Generated pairs of clean whitespace variants (inverse law), arbitrary strings x arbitrary operation vectors (only whitespace changes, identity, Err on length mismatch), arbitrary pairs (totality).",
   "Grapheme mode: inverse law on closed-pool (segmentation-stable) texts; KF2 recorded outside.")
-claim("C11", PBT + ": std split_whitespace as reference model, independent boundary scan",
+claim("C11", PBT + " + coverage-guided fuzzing (libFuzzer target with the same oracle, thorough tier): std split_whitespace as reference model, independent boundary scan",
   "Generated Unicode strings (every White_Space code point, CRLF, zero-width non-spaces, hazards); clean/word_boundaries/remove/full compared with independent models; idempotence.",
   "Grapheme mode: segmentation-stable strings (KF1 recorded outside); unstable ones run for totality.")
 claim("C14", PBT + ": metamorphic relations through the real preprocessing + task functions",
   "Generated clean texts x probabilities x seeds x modes, run through preprocessing(WhitespaceCorruption) and train_task(WhitespaceCorrection): only whitespace changes, output clean, repair/operations recover the original, label count, determinism on fresh instances, p=0 laws, (0,0) rejected.",
   "Grapheme mode on closed-pool texts (KF2); needs the TrainData read accessors of hook H3.")
-claim("C16", PBT + ": tiling / bounds / slice-equality predicates with an independent prefix-sum table",
+claim("C16", PBT + " + coverage-guided fuzzing (libFuzzer target with the same oracle, thorough tier): tiling / bounds / slice-equality predicates with an independent prefix-sum table",
   "Generated strings with 1-4 byte characters and wide clusters x max x context (incl. invalid) x char/byte/full x graphemes; Err exactly where the statement allows it, otherwise exact tiling and size limits.",
   "Sizes below 2^20; in byte mode a band of character widths where both outcomes are legitimate is accepted.")
 claim("C17", PBT + ": exact expected group structure, COO-matrix invariants, padding invariants",
   "Generated batches of texts x byte tokenizer configs x tasks; groups compared with the independent scanner's structure, sparse matrix and padded tensors checked entry by entry.",
   "Needs hooks H1 (tensor views) and H3; f32 tolerance 1e-5.")
-claim("C18", PBT + ": textbook LCS as reference + validity predicate on the matching",
+claim("C18", PBT + " + coverage-guided fuzzing (libFuzzer target with the same oracle, thorough tier): textbook LCS as reference + validity predicate on the matching",
   "Generated pairs of word sequences with repeats and case variants x ignore_case; matching must be strictly increasing, consist of equal words and have LCS length; edited_words are the complements.",
   "ASCII whitespace separators; case-insensitive equality = to_lowercase equality.")
 claim("C05", PBT + " over generated thread schedules: serialising schedule controller (hook points), sequential-map oracle after every step; random choice vectors, PCT, bounded-preemption enumeration, real threads with chaos controller",
